@@ -89,6 +89,7 @@ func (M6) TableName() string { return "t6" }
 
 // FDesc: what the harness author wrote for a field (NOT read back from gorm's parsed schema).
 type FDesc struct {
+	ColTag bool `json:"coltag"` // an explicit column: tag
 	Name string `json:"name"`
 	Col  string `json:"col"`  // physical column of the hand-made table (exists even for ignored fields)
 	Kind string `json:"kind"` // int | str | time | unix | milli
@@ -99,48 +100,184 @@ type FDesc struct {
 	Auto string `json:"auto"` // "" | create | update
 }
 type TDesc struct {
-	Table  string
-	Type   reflect.Type
-	Fields []FDesc
+	Table   string
+	Type    reflect.Type
+	Fields  []FDesc
+	Dynamic bool // built with reflect.StructOf: the table name is given with Table(...)
 }
 
 var types = []TDesc{
-	{"t1", reflect.TypeOf(M1{}), []FDesc{
+	{Table: "t1", Type: reflect.TypeOf(M1{}), Fields: []FDesc{
 		{Name: "ID", Col: "id", Kind: "int", PK: true}, {Name: "Name", Col: "name", Kind: "str"},
 		{Name: "Age", Col: "age", Kind: "int"}, {Name: "Note", Col: "note", Kind: "str"},
 		{Name: "CreatedAt", Col: "created_at", Kind: "time", Auto: "create"},
 		{Name: "UpdatedAt", Col: "updated_at", Kind: "time", Auto: "update"}}},
-	{"t2", reflect.TypeOf(M2{}), []FDesc{
+	{Table: "t2", Type: reflect.TypeOf(M2{}), Fields: []FDesc{
 		{Name: "ID", Col: "id", Kind: "int", PK: true},
 		{Name: "A", Col: "a", Kind: "str", RW: "create"}, {Name: "B", Col: "b", Kind: "str", RW: "update"},
 		{Name: "C", Col: "c", Kind: "str", RW: "false"}, {Name: "D", Col: "d", Kind: "str", RO: "->"},
 		{Name: "E", Col: "e", Kind: "int", RO: "->:false"}, {Name: "F", Col: "f", Kind: "str"},
 		{Name: "N", Col: "n", Kind: "int", RW: "<-"},
 		{Name: "UpdatedAt", Col: "updated_at", Kind: "time", Auto: "update"}}},
-	{"t3", reflect.TypeOf(M3{}), []FDesc{
+	{Table: "t3", Type: reflect.TypeOf(M3{}), Fields: []FDesc{
 		{Name: "ID", Col: "id", Kind: "int", PK: true},
 		{Name: "G", Col: "g", Kind: "str", Dash: "-"}, {Name: "H", Col: "h", Kind: "str", Dash: "migration"},
 		{Name: "I", Col: "i", Kind: "str", Dash: "all"}, {Name: "J", Col: "j", Kind: "int"},
 		{Name: "K", Col: "k", Kind: "str", RO: "->", RW: "create"},
 		{Name: "CreatedAt", Col: "created_at", Kind: "time", Auto: "create"},
 		{Name: "UpdatedAt", Col: "updated_at", Kind: "time", Auto: "update"}}},
-	{"t4", reflect.TypeOf(M4{}), []FDesc{
+	{Table: "t4", Type: reflect.TypeOf(M4{}), Fields: []FDesc{
 		{Name: "ID", Col: "id", Kind: "int", PK: true}, {Name: "Name", Col: "name", Kind: "str"},
 		{Name: "CreatedAt", Col: "created_at", Kind: "unix", Auto: "create"},
 		{Name: "UpdatedAt", Col: "updated_at", Kind: "milli", Auto: "update"},
 		{Name: "Touched", Col: "touched", Kind: "time", Auto: "update"},
 		{Name: "Made", Col: "made", Kind: "unix", Auto: "create"}}},
-	{"t5", reflect.TypeOf(M5{}), []FDesc{
+	{Table: "t5", Type: reflect.TypeOf(M5{}), Fields: []FDesc{
 		{Name: "ID", Col: "id", Kind: "int", PK: true}, {Name: "Name", Col: "name", Kind: "str"},
 		{Name: "Age", Col: "age", Kind: "int", RW: "update"},
 		{Name: "CreatedAt", Col: "created_at", Kind: "time", RW: "create", Auto: "create"},
 		{Name: "UpdatedAt", Col: "updated_at", Kind: "time", RW: "create", Auto: "update"},
 		{Name: "Seen", Col: "seen", Kind: "time", RO: "->", Auto: "update"}}},
-	{"t6", reflect.TypeOf(M6{}), []FDesc{
-		{Name: "ID", Col: "id", Kind: "int", PK: true}, {Name: "FullName", Col: "full_nm", Kind: "str"},
-		{Name: "Age", Col: "years", Kind: "int", RW: "update"}, {Name: "Nick", Col: "nick", Kind: "str", RW: "create"},
+	{Table: "t6", Type: reflect.TypeOf(M6{}), Fields: []FDesc{
+		{Name: "ID", Col: "id", Kind: "int", PK: true}, {Name: "FullName", Col: "full_nm", ColTag: true, Kind: "str"},
+		{Name: "Age", Col: "years", ColTag: true, Kind: "int", RW: "update"}, {Name: "Nick", Col: "nick", ColTag: true, Kind: "str", RW: "create"},
 		{Name: "Zip", Col: "zip", Kind: "str", RW: "create,update"},
 		{Name: "UpdatedAt", Col: "updated_at", Kind: "time", Auto: "update"}}},
+}
+
+// ---- generated model types (random per-field permission tags) ----------------------------------
+
+func gormTag(f FDesc, defaultCol string) string {
+	var parts []string
+	if f.PK {
+		parts = append(parts, "primaryKey")
+	}
+	if f.ColTag {
+		parts = append(parts, "column:"+f.Col)
+	}
+	switch f.Dash {
+	case "-":
+		parts = append(parts, "-")
+	case "all":
+		parts = append(parts, "-:all")
+	case "migration":
+		parts = append(parts, "-:migration")
+	}
+	switch f.RO {
+	case "->":
+		parts = append(parts, "->")
+	case "->:false":
+		parts = append(parts, "->:false")
+	}
+	switch f.RW {
+	case "<-":
+		parts = append(parts, "<-")
+	case "":
+	default:
+		parts = append(parts, "<-:"+f.RW)
+	}
+	byName := f.Name == "CreatedAt" || f.Name == "UpdatedAt"
+	switch {
+	case f.Auto == "create" && !byName:
+		parts = append(parts, "autoCreateTime")
+	case f.Auto == "update" && f.Kind == "milli":
+		parts = append(parts, "autoUpdateTime:milli")
+	case f.Auto == "update" && !byName:
+		parts = append(parts, "autoUpdateTime")
+	}
+	return strings.Join(parts, ";")
+}
+
+var dynCache = map[string]TDesc{}
+
+func dynType(table string, fields []FDesc) TDesc {
+	b, _ := json.Marshal(fields)
+	key := table + string(b)
+	if t, ok := dynCache[key]; ok {
+		return t
+	}
+	var sf []reflect.StructField
+	for _, f := range fields {
+		var ty reflect.Type
+		switch {
+		case f.PK:
+			ty = reflect.TypeOf(uint(0))
+		case f.Kind == "str":
+			ty = reflect.TypeOf("")
+		case f.Kind == "time":
+			ty = reflect.TypeOf(time.Time{})
+		default:
+			ty = reflect.TypeOf(int64(0))
+		}
+		def := strings.ToLower(f.Name)
+		if f.Name == "CreatedAt" {
+			def = "created_at"
+		} else if f.Name == "UpdatedAt" {
+			def = "updated_at"
+		}
+		sf = append(sf, reflect.StructField{Name: f.Name, Type: ty, Tag: reflect.StructTag(`gorm:"` + gormTag(f, def) + `"`)})
+	}
+	t := TDesc{Table: table, Type: reflect.StructOf(sf), Fields: fields, Dynamic: true}
+	dynCache[key] = t
+	return t
+}
+
+func typeOf(in Input) TDesc {
+	if in.Dyn != nil {
+		return dynType(in.DynTable, in.Dyn)
+	}
+	return types[in.Type]
+}
+
+var dynCount int
+
+// genType draws a model type: key, 3-6 data fields with random permission tags (any combination of
+// the "-", "->" and "<-" settings), optional tracked time fields with random kinds and permissions.
+func genType(r *lib.Rng) (string, []FDesc) {
+	dynCount++
+	fs := []FDesc{{Name: "ID", Col: "id", Kind: "int", PK: true}}
+	perm := func(f *FDesc) {
+		if r.Chance(1, 4) {
+			f.Dash = lib.Pick(r, []string{"-", "all", "migration"})
+		}
+		if r.Chance(1, 4) {
+			f.RO = lib.Pick(r, []string{"->", "->:false"})
+		}
+		if r.Chance(2, 5) {
+			f.RW = lib.Pick(r, []string{"<-", "create", "update", "false", "create,update"})
+		}
+	}
+	n := r.Range(3, 6)
+	for i := 1; i <= n; i++ {
+		f := FDesc{Name: fmt.Sprintf("F%d", i), Col: fmt.Sprintf("f%d", i), Kind: lib.Pick(r, []string{"str", "int"})}
+		if r.Chance(1, 4) {
+			f.Col, f.ColTag = fmt.Sprintf("c_%d", i), true
+		}
+		perm(&f)
+		fs = append(fs, f)
+	}
+	if r.Chance(2, 3) {
+		f := FDesc{Name: "CreatedAt", Col: "created_at", Kind: lib.Pick(r, []string{"time", "time", "unix"}), Auto: "create"}
+		if r.Chance(1, 3) {
+			perm(&f)
+		}
+		fs = append(fs, f)
+	}
+	if r.Chance(3, 4) {
+		f := FDesc{Name: "UpdatedAt", Col: "updated_at", Kind: lib.Pick(r, []string{"time", "time", "unix", "milli"}), Auto: "update"}
+		if r.Chance(1, 3) {
+			perm(&f)
+		}
+		fs = append(fs, f)
+	}
+	if r.Chance(1, 4) {
+		f := FDesc{Name: "Touched", Col: "touched", Kind: lib.Pick(r, []string{"time", "unix"}), Auto: lib.Pick(r, []string{"update", "create"})}
+		if r.Chance(1, 3) {
+			perm(&f)
+		}
+		fs = append(fs, f)
+	}
+	return fmt.Sprintf("d%d", dynCount), fs
 }
 
 // ---- inputs ------------------------------------------------------------------------------------
@@ -162,6 +299,8 @@ type Row struct {
 	PV []PV  `json:"pv"` // struct payload: every non-key field exactly once
 }
 type Input struct {
+	Dyn      []FDesc `json:"dyn,omitempty"` // a generated model type (reflect.StructOf); nil = types[Type]
+	DynTable string  `json:"dyn_table,omitempty"`
 	Type     int     `json:"type"`
 	Kind     string  `json:"kind"` // create | create_batch | create_map | upsert_all | upsert_cols | upsert_nothing | save | update | updates_struct | updates_map | update_column | update_columns_struct | update_columns_map
 	Selects  []SItem `json:"selects"`
@@ -266,7 +405,21 @@ type env struct {
 func openEnv() *env {
 	db, _, sqlDB, err := gdb.Open(gdb.Opt{Config: &gorm.Config{NowFunc: func() time.Time { return nowT }}})
 	lib.Must(err)
+	e := &env{db, sqlDB}
 	for _, t := range types {
+		e.createTable(t)
+	}
+	return e
+}
+
+var created = map[string]bool{}
+
+func (e *env) createTable(t TDesc) {
+	if created[t.Table] {
+		return
+	}
+	created[t.Table] = true
+	{
 		var cols []string
 		for _, f := range t.Fields {
 			switch {
@@ -281,10 +434,9 @@ func openEnv() *env {
 			}
 		}
 		cols = append(cols, "rid integer") // stable row identity for the diff (not a field of the model type)
-		_, err := sqlDB.Exec("CREATE TABLE " + t.Table + " (" + strings.Join(cols, ", ") + ")")
+		_, err := e.sql.Exec("CREATE TABLE " + t.Table + " (" + strings.Join(cols, ", ") + ")")
 		lib.Must(err)
 	}
-	return &env{db, sqlDB}
 }
 
 func (e *env) restore(t TDesc) error {
@@ -400,7 +552,8 @@ func buildMap(t TDesc, r Row) map[string]interface{} {
 
 func run(e *env, in Input) Obs {
 	var o Obs
-	t := types[in.Type]
+	t := typeOf(in)
+	e.createTable(t)
 	if err := e.restore(t); err != nil {
 		o.Setup = err.Error()
 		return o
@@ -412,6 +565,9 @@ func run(e *env, in Input) Obs {
 	}
 	// gorm's own reading of the tags (compared with the model's perm_of)
 	st := &gorm.Statement{DB: e.db}
+	if t.Dynamic {
+		st.Table = t.Table
+	}
 	if err := st.Parse(reflect.New(t.Type).Interface()); err != nil {
 		o.Setup = err.Error()
 		return o
@@ -422,6 +578,9 @@ func run(e *env, in Input) Obs {
 	}
 
 	tx := e.db.Session(&gorm.Session{})
+	if t.Dynamic {
+		tx = tx.Table(t.Table)
+	}
 	model := reflect.New(t.Type)
 	model.Elem().FieldByName("ID").SetUint(uint64(in.ModelKey))
 	isUpdate := strings.HasPrefix(in.Kind, "update")
@@ -593,7 +752,7 @@ func gField(f FDesc) string {
 	ro := gOptS(f.RO, map[string]string{"->": "true", "->:false": "false"})
 	rw := gOptS(f.RW, map[string]string{"<-": "WAll", "create": "WCreate", "update": "WUpdate", "false": "WFalse", "create,update": "WCreateUpdate"})
 	auto := map[string]string{"": "ANone", "create": "ACreate", "update": "AUpdate"}[f.Auto]
-	return lib.App("mk_field", lib.Str(f.Name), lib.Str(f.Col), dash, ro, rw, lib.Bool(f.PK), auto)
+	return lib.App("mk_field", lib.Str(f.Name), lib.Str(f.Col), lib.Bool(f.ColTag), dash, ro, rw, lib.Bool(f.PK), auto)
 }
 func gItem(t TDesc, s SItem) string {
 	switch s.Form {
@@ -674,7 +833,7 @@ func gPF(p PF) string {
 	return lib.App("mk_pf", lib.Str(p.Name), lib.Str(p.DBName), lib.Bool(p.Creatable), lib.Bool(p.Updatable), lib.Bool(p.Readable))
 }
 func term(in Input, o Obs) string {
-	t := types[in.Type]
+	t := typeOf(in)
 	asMap := isMapKind(in.Kind)
 	where := "None"
 	if in.HasWhere {
@@ -702,7 +861,30 @@ func nonKey(t TDesc) []int {
 	}
 	return out
 }
-func hasColumn(f FDesc) bool { return f.Dash != "-" && f.Dash != "all" }
+// permOf: the permission flags of a field, used ONLY to keep generated inputs inside the stated
+// domain (explicit DoUpdates lists, known-finding signature); the checker never sees it.
+func permOf(f FDesc) (creatable, updatable bool) {
+	c, u := true, true
+	if f.Dash == "-" || f.Dash == "all" {
+		c, u = false, false
+	}
+	if f.RO != "" {
+		c, u = false, false
+	}
+	switch f.RW {
+	case "<-", "create,update":
+		c, u = true, true
+	case "create":
+		c, u = true, false
+	case "update":
+		c, u = false, true
+	case "false":
+		c, u = false, false
+	}
+	return c, u
+}
+
+func hasColumn(f FDesc) bool { return f.ColTag || f.Dash != "-" && f.Dash != "all" }
 
 func genItems(r *lib.Rng, t TDesc, n int, allowStar bool, edge bool) []SItem {
 	var out []SItem
@@ -761,9 +943,12 @@ func mapRow(r *lib.Rng, t TDesc, id int64, n int, edge bool) Row {
 	return row
 }
 
-func genInput(r *lib.Rng, edge bool) Input {
+func genInput(r *lib.Rng, edge bool, dyn *Input) Input {
 	in := Input{Type: r.Intn(len(types)), Kind: lib.Pick(r, kinds)}
-	t := types[in.Type]
+	if dyn != nil {
+		in.Dyn, in.DynTable = dyn.Dyn, dyn.DynTable
+	}
+	t := typeOf(in)
 	// Select / Omit
 	switch r.Intn(10) {
 	case 0, 1, 2, 3: // none
@@ -794,6 +979,10 @@ func genInput(r *lib.Rng, edge bool) Input {
 		}
 	case "create_map":
 		in.Rows = []Row{mapRow(r, t, freshID(), r.Range(1, 4), edge)}
+		if len(in.Rows[0].PV) == 0 {
+			in.Kind = "create"
+			in.Rows = []Row{structRow(r, t, freshID(), 1, 3, edge)}
+		}
 	case "upsert_all", "upsert_nothing", "upsert_cols":
 		id := int64(1 + r.Intn(4)) // collides
 		if r.Chance(1, 4) {
@@ -807,12 +996,16 @@ func genInput(r *lib.Rng, edge bool) Input {
 			var ok []int
 			for _, j := range nonKey(t) {
 				f := t.Fields[j]
-				if hasColumn(f) && f.RO == "" && (f.RW == "" || f.RW == "<-" || f.RW == "create,update") {
+				if c, u := permOf(f); hasColumn(f) && c && u {
 					ok = append(ok, j)
 				}
 			}
 			lib.Shuffle(r, ok)
-			in.Cols = ok[:r.Range(1, len(ok))]
+			if len(ok) == 0 { // a generated type may have no such column
+				in.Kind = "upsert_all"
+			} else {
+				in.Cols = ok[:r.Range(1, len(ok))]
+			}
 		}
 	case "save":
 		id := int64(1 + r.Intn(4))
@@ -826,6 +1019,17 @@ func genInput(r *lib.Rng, edge bool) Input {
 			in.Rows = []Row{mapRow(r, t, 0, 1, edge)}
 		case "updates_map", "update_columns_map":
 			in.Rows = []Row{mapRow(r, t, 0, r.Range(1, 4), edge)}
+		}
+		if len(in.Rows) == 1 && len(in.Rows[0].PV) == 0 { // no column a map may name
+			in.Rows = nil
+			if in.Kind == "update" || in.Kind == "updates_map" {
+				in.Kind = "updates_struct"
+			} else {
+				in.Kind = "update_columns_struct"
+			}
+		}
+		switch {
+		case in.Rows != nil:
 		default:
 			in.Rows = []Row{structRow(r, t, 0, 1, 2, edge)}
 			in.Ptr = r.Chance(1, 3)
@@ -862,6 +1066,11 @@ func genInput(r *lib.Rng, edge bool) Input {
 
 func shape(in Input) string {
 	var sb strings.Builder
+	if in.Dyn != nil {
+		for _, f := range in.Dyn {
+			fmt.Fprintf(&sb, "%s%s%s%s%s,", f.Kind[:1], f.Dash, f.RO, f.RW, f.Auto)
+		}
+	}
 	fmt.Fprintf(&sb, "t%d|%s|sel:", in.Type+1, in.Kind)
 	for _, s := range in.Selects {
 		fmt.Fprintf(&sb, "%s%d,", s.Form[:1], s.Field)
@@ -892,7 +1101,7 @@ func sig(in Input) string {
 	if in.Kind != "update" && in.Kind != "updates_map" || len(in.Selects) == 0 {
 		return ""
 	}
-	t := types[in.Type]
+	t := typeOf(in)
 	namesField := func(items []SItem, j int) bool {
 		for _, s := range items {
 			switch s.Form {
@@ -908,7 +1117,7 @@ func sig(in Input) string {
 	}
 	for _, pv := range in.Rows[0].PV {
 		f := t.Fields[pv.Field]
-		updatable := f.RO == "" && (f.RW == "" || f.RW == "<-" || f.RW == "update" || f.RW == "create,update")
+		_, updatable := permOf(f)
 		if f.Auto == "update" && hasColumn(f) && updatable && !namesField(in.Selects, pv.Field) && !namesField(in.Omits, pv.Field) {
 			return "map-tracked-key-unselected"
 		}
@@ -924,11 +1133,18 @@ func main() {
 
 	add := func(kind string, in Input) {
 		o := run(e, in)
-		nontriv := len(o.Cells) > 0 && (len(in.Selects)+len(in.Omits) > 0 || in.Type != 0)
+		nontriv := len(o.Cells) > 0 && (len(in.Selects)+len(in.Omits) > 0 || in.Type != 0 || in.Dyn != nil)
 		out.Add(lib.Case{Term: term(in, o), JSON: map[string]interface{}{"input": in, "observed": o},
 			Sig: sig(in), Kind: kind, Shape: shape(in), Nontriv: nontriv})
 		out.Count("finisher", in.Kind)
-		out.Count("model_type", fmt.Sprintf("M%d", in.Type+1))
+		if in.Dyn != nil {
+			out.Count("model_type", "generated")
+			for _, f := range in.Dyn {
+				out.Count("generated_field_tags", "dash="+f.Dash+" ro="+f.RO+" rw="+f.RW)
+			}
+		} else {
+			out.Count("model_type", fmt.Sprintf("M%d", in.Type+1))
+		}
 		out.Count("selects", fmt.Sprint(len(in.Selects)))
 		out.Count("omits", fmt.Sprint(len(in.Omits)))
 		for _, s := range append(append([]SItem(nil), in.Selects...), in.Omits...) {
@@ -974,18 +1190,29 @@ func main() {
 	if a.N > 0 {
 		budget = a.N
 	}
+	var dyn *Input
 	for i := 0; i < budget; i++ {
 		edge := r.Chance(15, 100)
 		kind := "main"
 		if edge {
 			kind = "edge"
 		}
-		in := genInput(r, edge)
+		// half of the cases run on generated model types (reflect.StructOf) with random per-field
+		// permission tags; a fresh type every 8 such cases
+		var d *Input
+		if r.Bool() {
+			if dyn == nil || r.Chance(1, 8) {
+				tbl, fs := genType(r)
+				dyn = &Input{Dyn: fs, DynTable: tbl}
+			}
+			d = dyn
+		}
+		in := genInput(r, edge, d)
 		if sig(in) != "" {
 			kind = "known-shape"
 		}
 		add(kind, in)
 	}
-	out.Extra["rule"] = "a case = one write finisher (Create, Create(&slice)/CreateInBatches, Create from map, upsert UpdateAll / DoUpdates(cols) / DoNothing, Save, Update, Updates struct|map, UpdateColumn, UpdateColumns struct|map) on one of SIX FIXED hand-written model types (no code generation; together they carry every permission tag <-:create <-:update <-:false <- -> ->:false ->;<-:create - -:migration -:all <-:create,update, custom column names, and auto-time fields as time.Time / unix seconds / milliseconds with and without write permission) x random Select/Omit lists (0-3 items: '*', 'tbl.*', struct-field spelling, column spelling, 'tbl.col', unknown name) x payload with zero and non-zero entries (struct: every field; map: 1-4 keys in column or field spelling) x model key and/or Where(id IN subset) selecting a strict subset of the 4 stored rows. Observed: the cell-by-cell diff of the table (raw SELECT) with each changed cell classified now / payload value / other, and gorm's parsed permission flags. Domain: map keys name existing columns and (for updates) never the primary key; DoUpdates(cols) runs without Select/Omit; the struct payload is of the model type with a zero key; updates always carry a model key or a Where; explicit DoUpdates lists name only columns with create and update permission. distinct = distinct (type, finisher, select, omit, payload zero pattern and spelling, targeting); non-trivial = some cell changed and (a Select/Omit is present or the type carries permission tags)."
+	out.Extra["rule"] = "a case = one write finisher (Create, Create(&slice)/CreateInBatches, Create from map, upsert UpdateAll / DoUpdates(cols) / DoNothing, Save, Update, Updates struct|map, UpdateColumn, UpdateColumns struct|map) on one of six fixed hand-written model types or (half of the cases) on a GENERATED model type built with reflect.StructOf: key + 3-6 string/int fields, each with an independent random choice of '-' / '-:all' / '-:migration', '->' / '->:false' and '<-' / '<-:create' / '<-:update' / '<-:false' / '<-:create,update', default or custom column, optional CreatedAt / UpdatedAt / Touched tracked fields as time.Time, unix seconds or milliseconds with random permissions. The fixed types (together they carry every permission tag <-:create <-:update <-:false <- -> ->:false ->;<-:create - -:migration -:all <-:create,update, custom column names, and auto-time fields as time.Time / unix seconds / milliseconds with and without write permission)) x random Select/Omit lists (0-3 items: '*', 'tbl.*', struct-field spelling, column spelling, 'tbl.col', unknown name) x payload with zero and non-zero entries (struct: every field; map: 1-4 keys in column or field spelling) x model key and/or Where(id IN subset) selecting a strict subset of the 4 stored rows. Observed: the cell-by-cell diff of the table (raw SELECT) with each changed cell classified now / payload value / other, and gorm's parsed permission flags. Domain: map keys name existing columns and (for updates) never the primary key; DoUpdates(cols) runs without Select/Omit; the struct payload is of the model type with a zero key; updates always carry a model key or a Where; explicit DoUpdates lists name only columns with create and update permission. distinct = distinct (type, finisher, select, omit, payload zero pattern and spelling, targeting); non-trivial = some cell changed and (a Select/Omit is present or the type carries permission tags)."
 	lib.Must(out.Flush())
 }
